@@ -207,8 +207,8 @@ pub struct TopoShape {
     pub dups: u8,
 }
 
-pub const TOKEN_POOL: [i64; 8] =
-    [i64::MIN + 1, i64::MAX, i64::MAX - 1, -1, 0, 1, i64::MIN + 2, 1 << 62];
+pub const TOKEN_POOL: [i64; 9] =
+    [i64::MIN, i64::MIN + 1, i64::MAX, i64::MAX - 1, -1, 0, 1, i64::MIN + 2, 1 << 62];
 
 /// Random topology: 0..=max_nodes nodes, some without datacenter or rack, 0..=max_vnodes tokens each.
 /// Tokens are pairwise distinct after `Token::new` normalisation, except (when `dups` allows) for a few tokens
